@@ -39,11 +39,14 @@ fn main() {
         }
       }
       let start = std::time::Instant::now();
+      dgh::watchdog::start(&prop, out.clone(), std::time::Duration::from_secs(30));
       let report: Report = match prop.as_str() {
         "C14" => dgh::c14::run(&tier, seed),
         "C15" => dgh::walkprops::run_c15(&tier, seed),
         "C06" => dgh::c06::run(&tier, seed),
         "C20" => dgh::c20::run(&tier, seed),
+        "C01" => dgh::c01::run(&tier, seed),
+        "C03" => dgh::c03::run(&tier, seed),
         "C02" => dgh::walkprops::run_c02(&tier, seed),
         _ => {
           eprintln!("unknown property {}", prop);
